@@ -394,6 +394,11 @@ pub fn coexec_equal(a: &Obs, b: &Obs, nvec: u64, seed: u64) -> Result<u64, Strin
         };
         let ra = run(&ba);
         let rb = run(&bb);
+        if ra.0 == rb.0 && !ra.0.starts_with("halt") {
+            // neither run finished (an input that sends both into an endless loop or out of the
+            // program): the images were cut at an arbitrary instant and say nothing
+            continue;
+        }
         if ra != rb {
             return Err(format!("run #{}: {} vs {} / RAM images {}", k, ra.0, rb.0, if ra.1 == rb.1 { "equal" } else { "differ" }));
         }
